@@ -311,6 +311,137 @@ fn reference_stream() -> (Vec<u8>, usize) {
     (s, n)
 }
 
+
+// ------------------------------------------------------------------------------------ negotiated frame sizes
+/// A real client connection that announces max-frame-size `local` against a scripted peer that announces `remote`:
+/// what the library writes has to respect the PEER's size, and the library has to accept frames up to its OWN.
+async fn negotiated_scenario(local: u32, remote: u32) -> Vec<(String, String)> {
+    use fe2o3_amqp::link::{Receiver, Sender};
+    use fe2o3_amqp::Session;
+    use vlib::peer::{drive, settle, Auto, Dirn};
+    let mut f = vec![];
+    let what = format!("library announces max-frame-size {local}, the peer {remote}");
+    let mut auto = Auto::default();
+    auto.max_frame_size = remote;
+    auto.grant_credit = Some(1000);
+    auto.accept_transfers = true;
+    let mut c = match crate::scen::open_client(auto, local).await {
+        Ok(c) => c,
+        Err(e) => return vec![("machinery".into(), format!("{what}: {e}"))],
+    };
+    let mut session = match crate::scen::begin(&mut c, Session::builder()).await {
+        Ok(s) => s,
+        Err(e) => return vec![("machinery".into(), format!("{what}: {e}"))],
+    };
+    let h = crate::scen::H;
+    let mut sender = match drive(&mut c.peer, Sender::attach(&mut session, "s", "q"), h).await {
+        Some(Ok(s)) => s,
+        _ => return vec![("machinery".into(), format!("{what}: sender attach failed"))],
+    };
+    let mut receiver = match drive(&mut c.peer, Receiver::attach(&mut session, "r", "q"), h).await {
+        Some(Ok(r)) => r,
+        _ => return vec![("machinery".into(), format!("{what}: receiver attach failed"))],
+    };
+    let r_our = c.peer.links.last().map(|l| l.our_handle).unwrap_or(1);
+    // --- outgoing: bodies around 1x and 3x of both sizes
+    for len in [10usize, remote as usize - 60, remote as usize + 1, local as usize + 1, 3 * local.max(remote) as usize + 7] {
+        let body = "z".repeat(len);
+        match drive(&mut c.peer, sender.send(body), h).await {
+            Some(Ok(_)) => {}
+            other => f.push(("negotiated-size: send failed".into(), format!("{what}: send of a {len}-byte body: {:?}", other.map(|r| r.map(|_| ()).map_err(|e| e.to_string()))))),
+        }
+    }
+    settle(&mut c.peer, 2).await;
+    if let Some(e) = &c.peer.stream_error {
+        f.push(("negotiated-size: not-a-frame-sequence".into(), format!("{what}: {e}")));
+    }
+    let mut largest = 0u32;
+    for w in c.peer.trace.iter().filter(|w| w.dir == Dirn::FromLib) {
+        largest = largest.max(w.size);
+        if w.size > remote {
+            f.push((
+                "negotiated-size: frame larger than the peer's max-frame-size".into(),
+                format!("{what}: the library wrote a frame of {} bytes ({})", w.size, w.short()),
+            ));
+            break;
+        }
+    }
+    if remote < local && largest < remote {
+        f.push(("machinery".into(), format!("{what}: no frame reached the peer's limit (largest {largest})")));
+    }
+    // --- incoming: a transfer frame of exactly the library's own max-frame-size must be accepted
+    let overhead = {
+        let t = probe_transfer(r_our);
+        let mut b = vlib::peer::encode_perf(&Performative::Transfer(t));
+        b.extend_from_slice(&[]);
+        8 + b.len()
+    };
+    let payload = {
+        // a data section of the right total size: 0x00 0x53 0x75 0xb0 len32 bytes...
+        let n = local as usize - overhead - 8;
+        let mut p = vec![0x00, 0x53, 0x75, 0xb0];
+        p.extend_from_slice(&(n as u32).to_be_bytes());
+        p.extend(std::iter::repeat(0x61).take(n));
+        p
+    };
+    c.peer.send_perf(0, Performative::Transfer(probe_transfer(r_our)), &payload);
+    let frame_len = c.peer.trace.last().map(|w| w.size).unwrap_or(0);
+    match drive(&mut c.peer, receiver.recv::<fe2o3_amqp_types::messaging::Body<serde_amqp::Value>>(), h).await {
+        Some(Ok(d)) => {
+            let _ = drive(&mut c.peer, receiver.accept(&d), h).await;
+        }
+        other => f.push((
+            "negotiated-size: frame of the library's own max-frame-size refused".into(),
+            format!("{what}: the peer sent a transfer frame of {frame_len} bytes (<= {local}); recv() -> {:?}", other.map(|r| r.map(|_| ()).map_err(|e| e.to_string()))),
+        )),
+    }
+    if frame_len != local {
+        f.push(("machinery".into(), format!("{what}: the probe frame has {frame_len} bytes instead of {local}")));
+    }
+    f
+}
+
+fn probe_transfer(handle: u32) -> Transfer {
+    Transfer {
+        handle: fe2o3_amqp_types::definitions::Handle(handle),
+        delivery_id: Some(0),
+        delivery_tag: Some(serde_bytes::ByteBuf::from(vec![7u8])),
+        message_format: Some(0),
+        settled: Some(true),
+        more: false,
+        rcv_settle_mode: None,
+        state: None,
+        resume: false,
+        aborted: false,
+        batchable: false,
+    }
+}
+
+pub const NEGOTIATED: [(u32, u32); 7] = [(512, 512), (512, 4096), (4096, 512), (1024, 512), (512, 1024), (4096, 1024), (65536, 600)];
+
+fn negotiated(out: &mut Outcome) -> u64 {
+    use vlib::runner::{run_exec, RunCfg, Scenario};
+    let mut n = 0;
+    for (l, r) in NEGOTIATED {
+        let scen: Scenario<Vec<(String, String)>> = std::sync::Arc::new(move || Box::pin(negotiated_scenario(l, r)));
+        let ex = run_exec(vec![], &RunCfg::none(), &scen);
+        n += 1;
+        match ex.out {
+            Some(fs) => {
+                for (s, d) in fs {
+                    if s == "machinery" {
+                        out.machinery_errors.push(d);
+                    } else {
+                        out.violation(s, d, json!({"kind": "negotiated", "local": l, "remote": r}));
+                    }
+                }
+            }
+            None => out.machinery_errors.push(format!("negotiated scenario ({l},{r}) died: {:?}", ex.panics)),
+        }
+    }
+    n
+}
+
 pub fn run(ctx: &Ctx) -> Outcome {
     let mut out = Outcome::new("exploration");
     if let Some(p) = &ctx.replay {
@@ -496,12 +627,14 @@ pub fn run(ctx: &Ctx) -> Outcome {
         }
     }
     // the library's own writes read back by the library under 1-byte reads: a few multi-frame transfers
-    out.set("evaluations", n_write + n_read + wcases.len() as u64 * 4 + 1);
+    let n_neg = negotiated(&mut out);
+    out.set("negotiated_pairs", n_neg);
+    out.set("evaluations", n_write + n_read + wcases.len() as u64 * 4 + 1 + n_neg);
     out.set("write_cases", n_write);
     out.set("multi_frame_writes", *multi.lock().unwrap());
     out.set("read_partitions", n_read);
     out.set("distinct_nontrivial", distinct.into_inner().unwrap().len() as u64);
-    out.set("rule", "write: every performative kind x 3 channels x 4 field subsets, empty frame, transfers with every payload length 0..3m+16 (m=512) / +-40 around each multiple of the frame body (other m) x tag lengths x field subsets, pre-split (more=true) inputs, through the real Transport at each max-frame-size; stream parsed by the independent frame parser and judged (complete frames, size <= m, header, performative fields vs spec expectation, more flags, payload concatenation); oversized open; write chunking. read: a reference-encoded stream of all performative kinds (narrowest and widest encodings), empty frames and transfers with payload read through the real Transport under every uniform chunk size, every single split offset and every pair of split offsets in the first 12 bytes; result compared with whole reads. distinct = distinct byte streams written");
+    out.set("rule", "write: every performative kind x 3 channels x 4 field subsets, empty frame, transfers with every payload length 0..3m+16 (m=512) / +-40 around each multiple of the frame body (other m) x tag lengths x field subsets, pre-split (more=true) inputs, through the real Transport at each max-frame-size; stream parsed by the independent frame parser and judged (complete frames, size <= m, header, performative fields vs spec expectation, more flags, payload concatenation); oversized open; write chunking. read: a reference-encoded stream of all performative kinds (narrowest and widest encodings), empty frames and transfers with payload read through the real Transport under every uniform chunk size, every single split offset and every pair of split offsets in the first 12 bytes; result compared with whole reads. negotiated: a real client connection announcing max-frame-size L against a scripted peer announcing R for 7 (L,R) pairs: every frame the library writes is <= R, and a transfer frame of exactly L bytes from the peer is accepted. distinct = distinct byte streams written");
     out.set("exhaustive", true);
     out.set("bound", format!("max-frame-sizes {:?}", ms));
     out.set(
